@@ -210,20 +210,64 @@ func cmdVerify(args []string) int {
 			vcOf[o] = vc
 		}
 	}
+	// pass 1: one incremental solver session per function (split into a few workers);
+	// pass 2: every obligation not settled there is raced standalone on all three back ends.
 	var wg sync.WaitGroup
 	sem := make(chan struct{}, *jobs)
+	want := map[*Obl]bool{}
 	for _, o := range res.obls {
+		want[o] = true
+	}
+	for _, vc := range res.vcs {
+		var mine []*Obl
+		for _, o := range vc.obls {
+			if !want[o] {
+				continue
+			}
+			if !o.Cover && (o.Goal == "true" || o.Reach == "false") {
+				o.Result = SolverResult{Status: "unsat", Backend: "trivial"}
+				continue
+			}
+			mine = append(mine, o)
+		}
+		k := len(mine)/20 + 1
+		if k > 6 {
+			k = 6
+		}
+		for w := 0; w < k; w++ {
+			var part []*Obl
+			for i, o := range mine {
+				if i%k == w {
+					part = append(part, o)
+				}
+			}
+			if len(part) == 0 {
+				continue
+			}
+			wg.Add(1)
+			go func(vc *VC, part []*Obl, w int) {
+				defer wg.Done()
+				sem <- struct{}{}
+				defer func() { <-sem }()
+				runSession(vc, part, tmp, w)
+			}(vc, part, w)
+		}
+	}
+	wg.Wait()
+	for _, o := range res.obls {
+		settled := o.Result.Status == "unsat" || (o.Cover && o.Result.Status == "sat")
+		if settled || o.Result.Backend == "trivial" {
+			continue
+		}
 		wg.Add(1)
 		go func(o *Obl) {
 			defer wg.Done()
 			sem <- struct{}{}
 			defer func() { <-sem }()
-			if !o.Cover && (o.Goal == "true" || o.Reach == "false") {
-				o.Result = SolverResult{Status: "unsat", Backend: "trivial"}
-				return
-			}
 			q := vcOf[o].query(o)
+			first := o.Result
 			o.Result = solve(q, tmp, o.Name, to)
+			o.Result.Ms += first.Ms
 		}(o)
 	}
 	wg.Wait()
